@@ -232,6 +232,7 @@ def run(tier, seed):
     ck.bounds += ["all 20 configurations, all classes, competitor circuits of any length (inductive one-step condition)",
                   "per source class: all coupled pairs x all 36 pre-CZ Clifford pairs x all 6^n post layers x all target classes with potential >= +2, in one query",
                   "thorough: fixpoint from the raw table costs (re-discovers every non-optimal entry); quick: potential seeded with the listed findings' optima, one verifying sweep + witness re-derivation"]
+    ck.bounds += ["delivered circuits: product states (class 0) through the real prep/readout pipeline for every configuration with seeded generator permutations, one symbolic Clifford and symbolic sign: zero two-qubit gates; compress on user-style programs reaches the table cost"]
     ck.outside += ["that the class representatives cover all stabilizer states (C06 certificates + Van den Nest et al. 2004, pen and paper)",
                    "competitors using gates other than single-qubit Cliffords, CX, CZ, SWAP"]
     ck.lemmas += ["induction on the number of two-qubit gates (pen and paper) over the solver-checked one-step condition",
@@ -256,6 +257,29 @@ def run(tier, seed):
     ck.vacuity_twin("one-step query reaches a strictly entangled class when the potential forbids it", tw["verdict"] == "sat")
     if all_cases:
         ck.sample("nonoptimal", dict(key=all_cases[0][0], witness=all_cases[0][1]["witness"]))
+    # ---- the delivered circuits themselves, where minimality has a closed form: product states need NO two-qubit gate
+    # whatever the generator order / signs (pipeline, symbolic sign, seeded permutations), and compress must reach the
+    # table cost on user-style programs (idle qubits, SWAP-routed pairs)
+    from .. import pipeline, core
+    from . import _pipeprop, c07
+    import random as _r
+    pjobs = []
+    for (n, conn) in ADVERTISED:
+        for t in range(3):
+            r2 = _r.Random(seed * 101 + n * 7 + len(conn) + t)
+            perm = list(range(n))
+            r2.shuffle(perm)
+            pjobs.append(dict(family="Fc", n=n, conn=conn, cls=0, adj=[[0] * n for _ in range(n)], base_layer=[r2.randrange(6) for _ in range(n)], window=[r2.randrange(n)],
+                              B=[[1 if perm[h] == g else 0 for h in range(n)] for g in range(n)], signs=("affine", 1), seed=seed + t, resign=False))
+    _pipeprop.drive(ck, tier, seed, "prep", {"C04", "C01"}, pjobs, label="product states (prep)")
+    _pipeprop.drive(ck, tier, seed, "readout", {"C04"}, pjobs, label="product states (readout)")
+    ccands = []
+    for job, r in harness.pmap(c07._routed_job, [(n, conn, seed * 31 + 7 * n + len(conn), tier) for (n, conn) in ADVERTISED if n >= 3]):
+        res = core.Result.from_json(r["res"])
+        ck.add("compress user-style programs %d-%s" % job[:2], res, sample=0)
+        for c in r["cands"]:
+            ccands.append(("compress n=%d %s %s" % (c["n"], c["conn"], c["gates"]), c, "compress, %d-%s program %s: %s" % (c["n"], c["conn"], c["gates"], c["label"])))
+    ck.candidates(ccands[:10])
     hist = tables.history_check()
     ck.obligations += 1
     if not hist:
@@ -269,6 +293,12 @@ def run(tier, seed):
 def replay(case):
     if case.get("kind") == "history":
         return tables.replay_history(case)
+    if case.get("kind") == "pipeline":
+        from . import _pipeprop
+        return _pipeprop.replay(case)
+    if case.get("kind") == "program":
+        from . import c07
+        return c07.replay(case)
     """Build the witness circuit with qiskit, hand the state it prepares to the real get_preparation_circuit and
     compare two-qubit counts; the witness is also checked to respect the coupling graph and (dense simulation)
     to prepare the same state as the delivered circuit."""
